@@ -1190,6 +1190,21 @@ func (g *gen) typed(t typ, d int) node {
 				k = 2 + g.r.Intn(2)
 			}
 			f := g.fun(k, d-1)
+			if g.r.Chance(25) {
+				// the function returns several values: mapcar collects the first of each call
+				g.h("mapcar-values")
+				ps := g.freshNames(k)
+				mark := len(g.env)
+				for _, p := range ps {
+					g.push(vinfo{name: p, t: tInt})
+				}
+				saveSelf := g.self
+				g.self = nil
+				b := g.values(tInt, d-1, true)
+				g.self = saveSelf
+				g.pop(mark)
+				f = node{lisp("lambda", "("+strings.Join(ps, " ")+")", b.L), fmt.Sprintf("(ELambda %s [%s])", strsG(ps), b.G)}
+			}
 			var ls []node
 			for i := 0; i < k; i++ {
 				ls = append(ls, g.expr(tList, d-1))
